@@ -177,6 +177,13 @@ def gen_cases(tier, seed):
                 if flat and cubes and g not in FLAT_CUBE_GRIDS[:3 if q else None]:
                     continue
                 cases.append(dict(kind='vox', shape=sh, grid=list(g), cubes=cubes))
+    # data variety x option: models in units of 1e-6 and 1e6, in one process and with num_procs = 2, 4
+    for sh in (0, 1, 2, 5):
+        for g in ((8, 8, 8), (3, 4, 5)):
+            for cs in (1e-6, 1e6):
+                for procs in (None, 2, 4):
+                    cases.append(dict(kind='vox', shape=sh, grid=list(g), cubes=False, coord_scale=cs, procs=procs))
+            cases.append(dict(kind='vox', shape=sh, grid=list(g), cubes=False, procs=2))
     # the same query on objects that reached their definition through edits after their views had been read
     for sh in (0, 1, 2, 4):
         for g in ((2, 3, 4), (3, 3, 3)):
@@ -596,6 +603,10 @@ def _vox_case(case, ctx):
     from geomdl import voxelize
     spec = VOX_SHAPES[case['shape']]
     desc = spec['desc']
+    if case.get('coord_scale'):
+        # data variety: the same shape in units of 1e-6 / 1e6
+        cs = float(case['coord_scale'])
+        desc = dict(desc, points=[[c * cs for c in p] for p in S.net_points(desc, ctx.seed)[0]])
     obj = S.build(desc, ctx.seed)
     pd = desc['pdim']
     if pd == 2:
@@ -607,7 +618,7 @@ def _vox_case(case, ctx):
     flat = bool(spec.get('flat'))
     ctx.state(dict(k='vox', s=case['shape'], g=g, c=cubes))
     feats = dict(shape=spec['name'], pdim=pd, grid=g, cubes=cubes, flat=flat, rational=desc['rational'],
-                 anisotropic=len(set(g)) > 1)
+                 anisotropic=len(set(g)) > 1, procs=case.get('procs'), coord_scale=case.get('coord_scale'))
     rc = dict(case)
     cps = [list(p) for p in obj.ctrlpts]
     bmin = [min(p[a] for p in cps) for a in range(3)]
@@ -623,6 +634,14 @@ def _vox_case(case, ctx):
     elif cubes:
         ok, res = _call(ctx, 'C20.voxelize.returns', rc, feats,
                         lambda: voxelize.voxelize(obj, grid_size=tuple(g), use_cubes=True))
+    elif case.get('procs'):
+        # the documented num_procs option, through the pool seam (one forked worker takes every chunk; schedules are C17's business)
+        from .. import vpool
+
+        def run_mp():
+            with vpool.installed(vpool.Schedule(lambda ci, nc, k: tuple([0] * nc))):
+                return voxelize.voxelize(obj, grid_size=tuple(g), num_procs=case['procs'])
+        ok, res = _call(ctx, 'C20.voxelize.returns', rc, feats, run_mp)
     else:
         ok, res = _call(ctx, 'C20.voxelize.returns', rc, feats, lambda: voxelize.voxelize(obj, grid_size=tuple(g)))
     if not ok:
